@@ -18,6 +18,10 @@ ENDINGS0 = ["ok", "x:T", "x:P", "abort", "kbd", "exit", "cancel", "genexit", "ne
 SITES = ["classifier", "rclassifier", "strategy", "sleeper", "handler", "astart", "aend",
          "abort_if"]
 BRK = {"closed": {"threshold": 2, "window": 8, "recovery": 2, "trip_on": ["T", "U", "P"]},
+       # half-open with a free slot: the previous probe handed its slot back (cancel), so this
+       # call is admitted as the probe without a circuit_half_open event
+       "probe-again": {"threshold": 1, "window": 8, "recovery": 2, "trip_on": ["T", "U", "P"],
+                       "pre": [("fail", "T"), ("tick", 2), ("allow",), ("cancel",)]},
        "probe": {"threshold": 1, "window": 8, "recovery": 2, "trip_on": ["T", "U", "P"],
                  "pre": [("fail", "T"), ("tick", 2)]}}
 
@@ -86,6 +90,23 @@ def tasks(tier):
             # rest of the call (including its cancellation) on another
             out.append({"family": "await-points-thread-hop", "cfg": dict(cfg, thread_hop=True),
                         "entry": e, "bound": nf, "weight": 3})
+    # a breaker subclass whose truth value is False
+    for init, e in itertools.product(BRK, WITH_RETRY + NO_RETRY):
+        cfg = dict(M=2 if e in WITH_RETRY else 1, alphabet=ENDINGS0 if e in NO_RETRY else ENDINGS,
+                   breaker=dict(BRK[init], falsy=True), max_unknown=None)
+        out.append({"family": "endings-falsy-breaker", "cfg": cfg, "entry": e, "bound": 1})
+    # the task is cancelled before it starts (the coroutine is closed without ever running)
+    for init, e in itertools.product(BRK, ["AsyncPolicy.call", "AsyncPolicy.execute", "AsyncPolicy0.call",
+                                          "AsyncPolicy0.execute", "AsyncRetryPolicy.call", "AsyncPolicy.context"]):
+        cfg = dict(M=2, alphabet=["ok", "x:T"], breaker=BRK[init], suspend=True, inject_start=True,
+                   max_unknown=None)
+        out.append({"family": "never-started", "cfg": cfg, "entry": e, "bound": 1})
+    # a second call through the same Policy object overlaps the probe (re-entrancy from a hook)
+    for site, e, script in itertools.product(["aend", "metric", "strategy"], WITH_RETRY[:2] + ["Policy.context"],
+                                             [["ok"], ["x:T", "x:T"]]):
+        cfg = dict(M=2, alphabet=ENDINGS, attempt_hooks="call", max_unknown=None,
+                   nest={"site": site, "entry": e, "script": script}, breaker=BRK["probe"])
+        out.append({"family": "endings-reentrant", "cfg": cfg, "entry": e, "bound": 1})
     for init, e in itertools.product(BRK, WITH_RETRY + NO_RETRY + ["PolicySet.call", "AsyncPolicySet.execute"]):
         cfg = dict(M=2, alphabet=ENDINGS0 if e.split(".")[0].endswith("0") else ENDINGS,
                    breaker=BRK[init], max_unknown=None, repoint=True)
